@@ -182,6 +182,15 @@ class SymDict:
         return f"<symdict {self.base!r}+{list(self.items)}>"
 
 
+class SymBytes:
+    """a bytearray whose content may be symbolic"""
+    def __init__(self, value=b""):
+        self.value = value
+
+    def __repr__(self):
+        return f"<bytearray {self.value!r}>"
+
+
 class SuperProxy:
     def __init__(self, obj, after):
         self.obj = obj
@@ -624,7 +633,10 @@ class Interp:
         else:
             raise Unsupported("augassign target")
         rhs = self.ev(s.value, env, mod)
-        if isinstance(cur, list) and isinstance(s.op, ast.Add):
+        if isinstance(cur, SymBytes) and isinstance(s.op, ast.Add):
+            cur.value = sym.cat(cur.value, rhs.value if isinstance(rhs, SymBytes) else rhs)
+            new = cur
+        elif isinstance(cur, list) and isinstance(s.op, ast.Add):
             cur.extend(rhs)   # in-place semantics
             new = cur
         elif isinstance(cur, bytearray) and isinstance(s.op, ast.Add) and not is_sym(rhs):
@@ -985,6 +997,10 @@ class Interp:
 
     def binop(self, op, a, b):
         t = type(op)
+        if isinstance(a, SymBytes):
+            a = a.value
+        if isinstance(b, SymBytes):
+            b = b.value
         if isinstance(a, Rec) or isinstance(b, Rec):
             return self.rec_binop(op, a, b)
         if (isinstance(a, (list, tuple)) and not is_sym(a)) or (isinstance(b, (list, tuple)) and not is_sym(b)):
@@ -1311,6 +1327,8 @@ class Interp:
             return sym.op("attr", obj, name)
         if isinstance(obj, SymDict):
             return ("symdict-method", obj, name)
+        if isinstance(obj, SymBytes):
+            return ("symbytes-method", obj, name)
         for typ, names in SAFE_METHODS.items():
             if isinstance(obj, typ) and name in names:
                 return ("method", obj, name)
@@ -1485,6 +1503,16 @@ class Interp:
             return self.call_builtin_method(f[1], f[2], args, kwargs)
         if isinstance(f, tuple) and len(f) == 3 and f[0] == "symmethod":
             return self.call_sym_method(f[1], f[2], args, kwargs)
+        if isinstance(f, tuple) and len(f) == 3 and f[0] == "symbytes-method":
+            ba, name = f[1], f[2]
+            if name == "append":
+                x = args[0]
+                ba.value = sym.cat(ba.value, sym.op("byte", x) if is_sym(x) else bytes([x]))
+                return None
+            if name == "extend":
+                ba.value = sym.cat(ba.value, args[0])
+                return None
+            raise Unsupported("bytearray method " + name)
         if isinstance(f, tuple) and len(f) == 3 and f[0] == "symdict-method":
             d, name = f[1], f[2]
             if name == "get":
@@ -1513,6 +1541,8 @@ class Interp:
             raise Unsupported("star-args of symbolic sequence into builtin")
         if f is len:
             x = args[0]
+            if isinstance(x, SymBytes):
+                x = x.value
             if isinstance(x, Rec):
                 return self.call_method(x, "__len__", [])
             if is_sym(x):
@@ -1602,6 +1632,13 @@ class Interp:
             raise Unsupported("3-arg type()")
         if f.name == "object":
             return Rec(ClassVal("object"))
+        if f.name == "bytearray":
+            if not args:
+                return SymBytes(b"")
+            if isinstance(args[0], (bytes, bytearray)):
+                return SymBytes(bytes(args[0]))
+            if is_sym(args[0]):
+                return SymBytes(args[0] if sym.kind(args[0]) == "bytes" else sym.op("bytesof", args[0]))
         return self.call_safe_builtin(f.pytype, args, kwargs)
 
     def none_type(self):
